@@ -20,7 +20,7 @@ RULE = ('ordered pairs of operands from a pool holding ints, floats, logicals, b
         'underscores), non-numeric text, ISO date text, dates and date-times, every error code, flat and nested arrays and '
         'foreign objects, under each of + - * / &, injected as variables x, y (quick: seeded sample of the pool product; '
         'thorough: the complete product). Non-trivial = neither operand is an error or a foreign object.')
-TRUSTED = ['Python int/float arithmetic (floats are modelled by exact rationals; results compared within 4 ulp / 1e-12)',
+TRUSTED = ['Python int/float arithmetic (floats are modelled by exact rationals; results compared within 4 ulp or 1e-9 relative - serial arithmetic on date-times cancels ~5 digits)',
            'int()/float() text parsing beyond ASCII decimal syntax and dateutil beyond ISO-8601 are library behaviour '
            '(such operands are judged by the oracle only, not compared with the model)',
            'str() of floats, dates and lists under & is not fixed by the statement and not modelled']
@@ -44,6 +44,7 @@ def pool():
             '5', '-2', '1.5', ' 7 ', '1_0', '+3', '007', '.5', '5.', '-0', '1e2', 'abc', '', 'q1a', 'x y', 'TRUE', '#N/A',
             '2020-01-15', '2020-01-15 12:00:00', '1900-03-01',
             D(1900, 1, 1), D(1900, 1, 2), D(1900, 2, 28), D(1900, 3, 1), D(2020, 1, 15), D(2020, 1, 15, 6, 0), D(1999, 12, 31, 23, 59, 59),
+            D(2020, 1, 1, 12, 0, 0, 500000), D(1999, 12, 31, 23, 59, 59, 999000), D(2020, 1, 15, 6, 0, 0, 1000),
             D(9999, 12, 31), e.DIV_ZERO, e.NOT_AVAILABLE, e.VALUE, e.NAME]
     arrs = [[], [1], [2.5], [1, 2, 3], [4, 5, 6], [1, '2', None], [[1, 2], [3, 4]], [1, [2, 3]], ['a', 1], [D(2020, 1, 15), 1],
             [e.NUM, 1], [1, 2], [[1], [2]], [True, False, None]]
@@ -62,7 +63,9 @@ def cases(rng, ctx):
     pairs = list(itertools.product(range(len(allv)), repeat=2))
     if ctx['tier'] != 'thorough':
         k = min(len(pairs), 700 * ctx['scale'])
-        core = [(i, j) for i, j in pairs if i < 17 and j < 17]       # numbers, logicals, blank: complete
+        core = [(i, j) for i, j in pairs if i < 17 and j < 17]
+        dts = [k for k, v in enumerate(allv) if isinstance(v, datetime.datetime)]
+        core += [(i, j) for i in dts for j in dts] + [(i, j) for i in dts for j in range(17)] + [(j, i) for i in dts for j in range(17)]       # numbers, logicals, blank: complete
         pairs = core + rng.sample(pairs, k)
     for i, j in pairs:
         for op in OPS:
@@ -124,7 +127,7 @@ def impl(c):
 
 def agree(c, impl_ans, model_ans):
     m = fx.parse_sexp(model_ans)
-    r = fx.record_matches(m[0], impl_ans, ulps=4, rel=1e-12)
+    r = fx.record_matches(m[0], impl_ans, ulps=4, rel=1e-9)
     return r is not False
 
 
@@ -259,7 +262,7 @@ def check_value(exp, got):
         q = exp[1]
         if isinstance(got, int):
             return Fraction(got) == q
-        return fx.ulp_close(got, q, 8) or abs(Fraction(got) - q) <= Fraction(1, 10 ** 12) * max(1, abs(q))
+        return fx.ulp_close(got, q, 8) or abs(Fraction(got) - q) <= Fraction(1, 10 ** 9) * max(1, abs(q))
     if k == 'date':
         s = exp[1]
         if not isinstance(got, datetime.datetime):
